@@ -98,7 +98,7 @@ class World:
     def engine(self, cfg=None):
         """cfg: dict(list_conc, parent_conc, args) -> cooked engine (cached)"""
         cfg = cfg or {}
-        key = tuple(sorted(cfg.items()))
+        key = tuple(sorted((k, v if isinstance(v, (str, int, bool, tuple, type(None))) else id(v)) for k, v in cfg.items()))
         if key in self.engines:
             return self.engines[key]
         t = base.tartiflette()
